@@ -278,3 +278,166 @@ example :
        .recs [⟨[71], [103, 47], [[88], [120]], [[104, 47]], none⟩, ⟨[89], [121, 47], [], [], none⟩],
        .err .valueError] := by
   decide
+
+/-! ### priority: earlier converters' canonical choices win (case-sensitive mode) -/
+
+/-- `x` survives as (part of) `y`: same canonical prefix, canonical URI prefix and pattern, and
+everything `x` listed is still listed -/
+def Below (x y : Record) : Prop :=
+  y.pfx = x.pfx ∧ y.uri = x.uri ∧ y.pattern = x.pattern ∧ (∀ s ∈ x.allP, s ∈ y.allP) ∧ (∀ s ∈ x.allU, s ∈ y.allU)
+
+theorem Below.refl (x : Record) : Below x x := ⟨rfl, rfl, rfl, fun _ h => h, fun _ h => h⟩
+
+theorem Below.trans {x y z : Record} (h1 : Below x y) (h2 : Below y z) : Below x z :=
+  ⟨h2.1.trans h1.1, h2.2.1.trans h1.2.1, h2.2.2.1.trans h1.2.2.1, fun s hs => h2.2.2.2.1 s (h1.2.2.2.1 s hs),
+   fun s hs => h2.2.2.2.2 s (h1.2.2.2.2 s hs)⟩
+
+/-- a successful `add_record` never renames, re-points or shrinks an existing record -/
+theorem addRecord_below (fold : Str → Str) {c c' : Conv} (h : WF c) (r : Record) (cs merge : Bool)
+    (hok : c.addRecord fold r cs merge = .ok c') : ∀ x ∈ c.records, ∃ y ∈ c'.records, Below x y := by
+  intro x hx
+  rcases C05_shape fold h r cs merge hok with e | ⟨j, hj, m, e, _, e1, e2, e3, hP, hU⟩
+  · exact ⟨x, by rw [e]; simp [hx], Below.refl x⟩
+  · obtain ⟨i, hi, rfl⟩ := List.mem_iff_getElem.mp hx
+    by_cases hij : i = j
+    · subst hij
+      refine ⟨m, by rw [e, List.mem_iff_getElem]; exact ⟨i, by simpa using hi, by simp⟩, e1, e2, e3, ?_, ?_⟩
+      · intro s hs; exact (hP s).mpr (Or.inl hs)
+      · intro s hs; exact (hU s).mpr (Or.inl hs)
+    · exact ⟨_, by rw [e]; exact mem_set_of_ne hi hij, Below.refl _⟩
+
+theorem chainFold_below (fold : Str → Str) (cs : Bool) (recs : List Record) (c c' : Conv) (h : WF c)
+    (hr : ∀ r ∈ recs, RecOK r) (hok : chainFold fold cs c recs = .ok c') :
+    ∀ x ∈ c.records, ∃ y ∈ c'.records, Below x y := by
+  unfold chainFold at hok
+  induction recs generalizing c with
+  | nil =>
+    simp [List.foldlM, pure, Except.pure] at hok
+    subst hok
+    exact fun x hx => ⟨x, hx, Below.refl x⟩
+  | cons r rs ih =>
+    rw [List.foldlM_cons] at hok
+    cases h1 : c.addRecord fold r cs true with
+    | error e => simp [h1, bind, Except.bind] at hok
+    | ok c1 =>
+      simp [h1, bind, Except.bind] at hok
+      have hw1 := wf_addRecord fold h (hr r (by simp)) h1
+      intro x hx
+      obtain ⟨y, hy, hxy⟩ := addRecord_below fold h r cs true h1 x hx
+      obtain ⟨z, hz, hyz⟩ := ih c1 hw1 (fun a ha => hr a (by simp [ha])) hok y hy
+      exact ⟨z, hz, hxy.trans hyz⟩
+
+theorem matchesP_cs_true (fold : Str → Str) (ext r : Record) (h : matchesP fold true ext r = true) :
+    ∃ s, s ∈ ext.allP ∧ s ∈ r.allP := by
+  unfold matchesP eqCS inCS at h
+  simp only [if_true, Bool.or_eq_true, List.any_eq_true, beq_iff_eq, List.contains_eq_mem, decide_eq_true_eq] at h
+  rcases h with (h | h) | ⟨s, hs, h | h⟩
+  · exact ⟨ext.pfx, by simp [Record.allP], by simp [Record.allP, h]⟩
+  · exact ⟨ext.pfx, by simp [Record.allP], by simp [Record.allP, h]⟩
+  · exact ⟨s, by simp [Record.allP, hs], by simp [Record.allP, h]⟩
+  · exact ⟨s, by simp [Record.allP, hs], by simp [Record.allP, h]⟩
+
+theorem matchesU_cs_true (fold : Str → Str) (ext r : Record) (h : _root_.matchesU fold true ext r = true) :
+    ∃ s, s ∈ ext.allU ∧ s ∈ r.allU := by
+  unfold _root_.matchesU eqCS inCS at h
+  simp only [if_true, Bool.or_eq_true, List.any_eq_true, beq_iff_eq, List.contains_eq_mem, decide_eq_true_eq] at h
+  rcases h with (h | h) | ⟨s, hs, h | h⟩
+  · exact ⟨ext.uri, by simp [Record.allU], by simp [Record.allU, h]⟩
+  · exact ⟨ext.uri, by simp [Record.allU], by simp [Record.allU, h]⟩
+  · exact ⟨s, by simp [Record.allU, hs], by simp [Record.allU, h]⟩
+  · exact ⟨s, by simp [Record.allU, hs], by simp [Record.allU, h]⟩
+
+/-- in case-sensitive mode two records with disjoint strings do not match -/
+theorem matchesRec_cs_of_disj (fold : Str → Str) (r x : Record) (hP : Disj r.allP x.allP) (hU : Disj r.allU x.allU) :
+    matchesRec fold true r x = false := by
+  cases hm : matchesRec fold true r x with
+  | false => rfl
+  | true =>
+    unfold matchesRec at hm
+    rcases Bool.or_eq_true_iff.mp hm with h | h
+    · obtain ⟨s, h1, h2⟩ := matchesP_cs_true fold r x h
+      exact absurd h2 (hP s h1)
+    · obtain ⟨s, h1, h2⟩ := matchesU_cs_true fold r x h
+      exact absurd h2 (hU s h1)
+
+/-- adding, case-sensitively, the records of a one-owner collection to an accumulated state that
+shares no string with them appends them unchanged -/
+theorem chainFold_append_disjoint (fold : Str → Str) (recs : List Record) (c : Conv) (h : WF c)
+    (hu : Unique recs) (hr : ∀ r ∈ recs, RecOK r)
+    (hd : ∀ r ∈ recs, ∀ x ∈ c.records, Disj r.allP x.allP ∧ Disj r.allU x.allU) :
+    ∃ c', chainFold fold true c recs = .ok c' ∧ WF c' ∧ c'.records = c.records ++ recs := by
+  unfold chainFold
+  induction recs generalizing c with
+  | nil => exact ⟨c, rfl, h, by simp⟩
+  | cons r rs ih =>
+    rw [List.foldlM_cons]
+    have hno : ∀ x ∈ c.records, matchesRec fold true r x = false := fun x hx =>
+      matchesRec_cs_of_disj fold r x (hd r (by simp) x hx).1 (hd r (by simp) x hx).2
+    rcases addRecord_spec fold h r true true with ⟨_, he⟩ | ⟨j, hj, _, hm, _⟩ | ⟨⟨x, hx, _, _, _, hmx, _⟩, _⟩
+    · rw [he]
+      simp only [bind, Except.bind]
+      have hw1 := wf_append h r (hr r (by simp)) (fun x hx => matchesRec_false (hno x hx))
+      have hpw := List.pairwise_cons.mp hu
+      obtain ⟨c', hc', hw', hrec⟩ := ih _ hw1 hpw.2 (fun a ha => hr a (by simp [ha])) (by
+        intro a ha x hx
+        have hx' : x ∈ c.records ++ [r] := hx
+        rcases List.mem_append.mp hx' with hx | hx
+        · exact hd a (by simp [ha]) x hx
+        · have : x = r := by simpa using hx
+          subst this
+          exact ⟨(hpw.1 a ha).1.symm, (hpw.1 a ha).2.symm⟩)
+      refine ⟨c', hc', hw', ?_⟩
+      rw [hrec]
+      show (c.records ++ [r]) ++ rs = c.records ++ r :: rs
+      simp
+    · rw [hno _ (List.getElem_mem hj)] at hm; cases hm
+    · rw [hno x hx] at hmx; cases hmx
+
+/-- **C09 (priority).** In case-sensitive mode the chain expands every prefix known to the first
+converter exactly as the first converter does: its records survive with their canonical prefix,
+canonical URI prefix and pattern, later converters only contributing synonyms. -/
+theorem C09_priority (fold : Str → Str) (c1 : Conv) (rest : List Conv) (hw1 : WF c1) (hwr : ∀ c ∈ rest, WF c)
+    (c' : Conv) (hok : Conv.chain fold (c1 :: rest) true = .ok c') :
+    (∀ x ∈ c1.records, ∃ y ∈ c'.records, Below x y) ∧
+    (∀ p i, (∃ x ∈ c1.records, p ∈ x.allP) →
+      c'.expandPair p i false false = c1.expandPair p i false false) := by
+  have hw' := C09_wf fold (c1 :: rest) true (by
+    intro c hc; rcases List.mem_cons.mp hc with rfl | hc
+    · exact hw1
+    · exact hwr c hc) c' hok
+  rw [chain_eq fold (c1 :: rest) true (by simp)] at hok
+  simp only [List.flatMap_cons] at hok
+  -- first the records of `c1`, appended unchanged into the empty converter
+  obtain ⟨s1, hs1, hws1, hrec1⟩ := chainFold_append_disjoint fold c1.records Conv.empty wf_empty hw1.unique
+    hw1.recOK (by intro r _ x hx; simp [Conv.empty, Conv.build] at hx)
+  have hsplit : chainFold fold true Conv.empty (c1.records ++ rest.flatMap (·.records)) =
+      (chainFold fold true Conv.empty c1.records).bind fun s => chainFold fold true s (rest.flatMap (·.records)) := by
+    unfold chainFold
+    rw [List.foldlM_append]
+    rfl
+  rw [hsplit, hs1] at hok
+  simp only [Except.bind] at hok
+  have hbelow := chainFold_below fold true _ s1 c' hws1 (by
+    intro r hr
+    obtain ⟨c, hc, hrc⟩ := List.mem_flatMap.mp hr
+    exact (hwr c hc).recOK r hrc) hok
+  have hb1 : ∀ x ∈ c1.records, ∃ y ∈ c'.records, Below x y := by
+    intro x hx
+    exact hbelow x (by rw [hrec1]; simp [Conv.empty, Conv.build, hx])
+  refine ⟨hb1, ?_⟩
+  rintro p i ⟨x, hx, hp⟩
+  obtain ⟨y, hy, hxy⟩ := hb1 x hx
+  unfold Conv.expandPair
+  rw [expandReference_eq hw', expandReference_eq hw1]
+  simp only [Spec.expandPair, ownerP_of_mem hw'.unique hy (hxy.2.2.2.1 p hp), ownerP_of_mem hw1.unique hx hp,
+    Option.map_some, hxy.2.1]
+
+/-- **C09 (singleton).** `chain([c])` has exactly the records of `c` (in case-sensitive mode), hence
+answers every query as `c` does (`C05_fresh`). -/
+theorem C09_singleton (fold : Str → Str) (c : Conv) (hw : WF c) :
+    ∃ c', Conv.chain fold [c] true = .ok c' ∧ WF c' ∧ c'.records = c.records := by
+  rw [chain_eq fold [c] true (by simp)]
+  simp only [List.flatMap_cons, List.flatMap_nil, List.append_nil]
+  obtain ⟨s1, hs1, hws1, hrec1⟩ := chainFold_append_disjoint fold c.records Conv.empty wf_empty hw.unique
+    hw.recOK (by intro r _ x hx; simp [Conv.empty, Conv.build] at hx)
+  exact ⟨s1, hs1, hws1, by rw [hrec1]; simp [Conv.empty, Conv.build]⟩
